@@ -8,7 +8,7 @@ def route():
     return build.harness("logroute", "asan", ["logroute.c", "vp.c"], wraps=["random", "srand"])
 
 
-STAGE_LIST = [simple.Stage("route", route, quick=1500, thorough=100000)]
+STAGE_LIST = [simple.Stage("route", route, quick=1500, thorough=24000, chunk=100, timeout=1200)]
 STAGES = {s.name: s.builder for s in STAGE_LIST}
 RULE = ("one case = a pool of 30-200 synthetic call sites (files x functions x lines x priorities x formats, some line "
         "numbers shared) and a history of 30-120 filter add/remove/clear, tag set/clear, target open/close/enable/"
